@@ -2,8 +2,11 @@
  * Part 2 of the do_journal.c environment (see jw_env.h): stubs with ghost monitors, included AFTER the real file.
  * The including unit defines, before this header,
  *     JW_DATA_BH / JW_META_BH / JW_SCRATCH_BH   which getblk() result (g_bh0, g_bh1, g_bh2 in call order) plays which role,
- *     static void jw_on_write(struct buffer_head *bh, unsigned long long logical)   its device-write monitor,
- *     static void jw_on_read(struct buffer_head *bh, unsigned long long logical)    its device-read monitor.
+ *     static struct jw_ghost jw_on_write(struct jw_ghost g, struct buffer_head *bh, unsigned long long logical)
+ *     static struct jw_ghost jw_on_read(struct jw_ghost g, struct buffer_head *bh, unsigned long long logical)
+ *                                               its device-write / device-read monitors (ghost state in, ghost state out).
+ * The block size is fixed per unit (-DJW_BS=1024 / 4096): the verifier's cost grows linearly with the size of the
+ * buffer objects (every symbolic-offset access and every control-flow merge touches the whole object).
  * Stubs called inside a cut loop write only the ghost object G (named in the loop's assigns clause) and the buffer
  * heads; every nondeterministic result is drawn from IN.* at index G.draw (G is havocked by the loop cut, so the draws
  * of the arbitrary iteration are independent of those of the first one).
@@ -32,9 +35,10 @@ static blk64_t *g_list;
 
 /*
  * Every stub works on a LOCAL copy g of the ghost object and stores it back once (JW_BEGIN / JW_END): inside a cut loop
- * DFCC checks every assignment to non-local memory against the loop's write set (an inclusion loop over all assigns
- * targets, ~10^4 solver variables per checked assignment); forty field updates of G per iteration cost more than the
- * whole real function.  The unit's monitors take and return the copy by value for the same reason.
+ * DFCC checks every assignment to non-local memory against the loop's write set (an inclusion loop over the assigns
+ * targets per checked assignment); with one store per stub call instead of one per ghost field the formula of unit
+ * jw_add_blocks_to_trans went from 11.4 M to 6.0 M clauses.  The unit's monitors take and return the copy by value for
+ * the same reason.
  */
 #define JW_BEGIN struct jw_ghost g = G
 #define JW_END G = g
